@@ -105,7 +105,16 @@ def A3(inp, chunks):
     # follower side
     so.set_log(fol, [(so.NOOP, 1, 0)])
     exc2 = None
+    # an earlier attempt of the same transfer was cut after `lost` chunks (link drop): the leader starts over
+    lost = inp.choice('interrupted_after', len(msgs))
+    for m in msgs[:lost]:
+        _, exc2 = guard(getattr(fol, so.P + 'onMessageReceived'), Node('a'), m)
+        if exc2 is not None:
+            break
+    del ftr.sent[:]
     for m in msgs:
+        if exc2 is not None:
+            break
         _, exc2 = guard(getattr(fol, so.P + 'onMessageReceived'), Node('a'), m)
         if exc2 is not None:
             break
